@@ -218,6 +218,8 @@ def _c16_pre(tier):
         raise SystemExit(3)
 
 
+_LAYOUT_SEED_FLAGS = "-Zrandomize-layout -Zlayout-seed=%d" % (1 + int(os.environ.get("VERIF_SEED", "0") or 0) % 1000)
+
 PROPS["C16"] = {
     "crate": "rt",
     "pre": _c16_pre,
@@ -227,6 +229,13 @@ PROPS["C16"] = {
                    "c16::c16_cvec_u8_exact", "c16::c16_cvec_u64_exact", "c16::c16_cvec_u64_spare", "c16::c16_cvec_t3_empty",
                    "c16::c16_callback_view", "c16::c16_citerator_view", "c16::c16_citerator_view_droppable_items", "c16::c16_views_made_by_c", "c16::c16_tags", "c16::c16_negative_twin"],
          "cbmc_args": LEAK, "timeout": 1200},
+        # the same views with the compiler told to SHUFFLE every layout it is free to choose (-Zrandomize-layout, seed from
+        # VERIF_SEED): a published type that lost (or only conditionally has) its repr(C)/repr(transparent) coincides with its
+        # C declaration in an ordinary build and stops doing so here
+        {"id": "views_layout_seed",
+         "quick": ["c16::c16_cbox_view", "c16::c16_carc_view", "c16::c16_slices_u8", "c16::c16_slices_t3", "c16::c16_cvec_u64_spare",
+                   "c16::c16_callback_view", "c16::c16_citerator_view", "c16::c16_views_made_by_c", "c16::c16_tags"],
+         "rustflags": _LAYOUT_SEED_FLAGS, "timeout": 1200},
     ],
     "negative": ["c16::c16_negative_twin"],
     "bounds": "each runtime wrapper reinterpreted as its C view (views for CBox, CArc, CSliceRef, Callback, CIterator generated from "
@@ -259,6 +268,12 @@ PROPS["C05"] = {
         # is a function of the trait names alone (4 mandatory + 2 optional traits; an order that depended on the expanding
         # process - hash seed - would match the name order only by chance)
         {"id": "layout_by_names", "crate": "gen", "quick": ["c08x::c08x_mandatory_and_optional_word_order"], "timeout": 600},
+        # values fabricated by the plugin role through the C declarations, consumed by a host whose compiler shuffles every
+        # layout it is free to choose (the other module of the pair was built with another layout seed)
+        {"id": "foreign_layout_seed",
+         "quick": ["c05::c05_foreign_cbox", "c05::c05_foreign_cvec_i1", "c05::c05_foreign_cslicebox", "c05::c05_foreign_callback",
+                   "c05::c05_foreign_iterator"],
+         "rustflags": _LAYOUT_SEED_FLAGS, "timeout": 1200},
     ],
     "negative": ["c05::c05_negative_twin"],
     "bounds": "two-role model inside one build: values fabricated through their C view by a plugin role with its own function "
